@@ -33,6 +33,9 @@ def rule_low_s(ctx, repo):
         fi = repo.get_function(K + 'CECKey.' + name)
 
         def cond(test):
+            if isinstance(test, ast.UnaryOp) and isinstance(test.op, ast.Not):
+                a, b = cond(test.operand)
+                return b, a
             t = norm(test)
             if t.startswith('bitcoin.core.script.IsLowDERSignature(') or t.startswith('IsLowDERSignature('):
                 return frozenset(['low']), frozenset(['high'])
@@ -41,6 +44,9 @@ def rule_low_s(ctx, repo):
             return frozenset(), frozenset()
 
         def gen(stmt, facts):
+            # x = self.signature_to_low_s(x): from here on the value is normalised
+            if isinstance(stmt, ast.Assign) and isinstance(stmt.value, ast.Call) and norm(stmt.value.func).endswith('signature_to_low_s'):
+                return (facts - {'high'}) | {'low'}
             return facts
         mf = flow.run_must(fi.node, cond=cond, gen=gen)
         if name == 'sign':
